@@ -268,3 +268,177 @@ func (g *G) Workload(id string, n int) wl.Workload {
 	c := g.Cfg()
 	return wl.Workload{ID: id, Cfg: c, Calls: g.Calls(n, c.ChunkSize)}
 }
+
+
+// AsmWorkload draws a "remuxing" workload: the caller assembles chunks itself and hands them over with
+// WriteChunkWithIndexes, registers schemas and channels with AddSchema / AddChannel, and mixes in attachments and
+// metadata.  The caller's side of the contract is kept by construction: every assembled chunk is self-contained
+// (the schema and channel records of its messages precede them inside the chunk unless they were written earlier),
+// its times, CRC and message indexes are exact, chunks are handed over only while the writer's own chunk buffer is
+// empty (an unchunked writer, or a chunked one that is never given schema / channel / message calls), every channel
+// with a message index is registered before Close (unless unregistered is set), and an index-less hand-over happens
+// only when message indexing is skipped.
+func (g *G) AsmWorkload(id string, n int, unregistered bool) wl.Workload {
+	c := g.Cfg()
+	ownData := !c.Chunked || g.R.Intn(3) == 0
+	if ownData {
+		c.Chunked = false // top-level schema / channel / message calls in between
+	}
+	calls := []wl.Call{{Op: "header", Profile: g.Str(), Library: g.Str()}}
+	type def struct {
+		c       wl.Call
+		written bool
+		added   bool
+	}
+	schemas := map[uint16]*def{}
+	channels := map[uint16]*def{}
+	var schemaList, channelList []uint16
+	newSchema := func() uint16 {
+		id := SchemaIDs[g.R.Intn(len(SchemaIDs))]
+		if _, ok := schemas[id]; !ok {
+			schemas[id] = &def{c: wl.Call{Op: "schema", ID: id, Name: g.Str(), Enc: g.Str(), Data: g.Payload(0)}}
+			schemaList = append(schemaList, id)
+		}
+		return id
+	}
+	newChannel := func() uint16 {
+		id := ChannelIDs[g.R.Intn(len(ChannelIDs))]
+		if _, ok := channels[id]; !ok {
+			var sid uint16
+			if g.R.Intn(3) != 0 {
+				sid = newSchema()
+			}
+			channels[id] = &def{c: wl.Call{Op: "channel", ID: id, Schema: sid, Topic: g.Str(), Menc: g.Str(), MD: g.Map()}}
+			channelList = append(channelList, id)
+		}
+		return id
+	}
+	seq := uint32(0)
+	msg := func(ch uint16, mode int, tbase *uint64) wl.Call {
+		var t uint64
+		switch mode {
+		case 0:
+			*tbase += uint64(g.R.Intn(3))
+			t = *tbase
+		case 1:
+			t = g.Time()
+		default:
+			t = 0
+		}
+		seq++
+		return wl.Call{Op: "message", Ch: ch, Seq: seq, Log: t, Pub: g.Time(), Data: g.Payload(c.ChunkSize)}
+	}
+	// Close re-writes every registered channel into the summary and rejects one whose schema it does not know: a
+	// channel is added only after its schema
+	addChannel := func(ch uint16) {
+		d := channels[ch]
+		if sid := d.c.Schema; sid != 0 && !schemas[sid].added {
+			s := schemas[sid].c
+			s.Op = "addschema"
+			calls = append(calls, s)
+			schemas[sid].added = true
+		}
+		x := d.c
+		x.Op = "addchannel"
+		calls = append(calls, x)
+		d.added = true
+	}
+	tbase := uint64(g.R.Intn(5))
+	for i := 0; i < n; i++ {
+		r := g.R.Intn(20)
+		switch {
+		case r < 9: // an assembled chunk
+			k := 1 + g.R.Intn(3)
+			var use []uint16
+			for j := 0; j < k; j++ {
+				use = append(use, newChannel())
+			}
+			var inner []wl.Call
+			for _, ch := range use {
+				d := channels[ch]
+				if sid := d.c.Schema; sid != 0 && (!schemas[sid].written || g.R.Intn(4) == 0) {
+					inner = append(inner, schemas[sid].c)
+					schemas[sid].written = true
+				}
+				if !d.written || g.R.Intn(3) == 0 {
+					inner = append(inner, d.c)
+					d.written = true
+				}
+			}
+			mode := g.R.Intn(6)
+			if mode > 2 {
+				mode = 0
+			}
+			nm := g.R.Intn(6)
+			if g.R.Intn(8) == 0 {
+				nm = 0
+			}
+			for j := 0; j < nm; j++ {
+				inner = append(inner, msg(use[g.R.Intn(len(use))], mode, &tbase))
+			}
+			idx := []string{"exact", "exact", "rev", "extra"}[g.R.Intn(4)]
+			allZero := true
+			for _, x := range inner {
+				if x.Op == "message" && x.Log != 0 {
+					allZero = false
+				}
+			}
+			if c.SkipMsgIdx && (nm == 0 || !allZero) && g.R.Intn(2) == 0 {
+				idx = "none"
+			}
+			comp := []string{"", "", "zstd", "lz4"}[g.R.Intn(4)]
+			if len(inner) == 0 && g.R.Intn(2) == 0 {
+				continue
+			}
+			calls = append(calls, wl.Call{Op: "chunk", Inner: inner, CComp: comp, Idx: idx})
+		case r < 12 && ownData: // own top-level records: the writer must know the schema / channel (written top-level or added)
+			ch := newChannel()
+			d := channels[ch]
+			if sid := d.c.Schema; sid != 0 && (!schemas[sid].added || !schemas[sid].written) {
+				calls = append(calls, schemas[sid].c)
+				schemas[sid].written, schemas[sid].added = true, true
+			}
+			if !d.added || g.R.Intn(2) == 0 {
+				calls = append(calls, d.c)
+				d.written, d.added = true, true
+			}
+			for j := g.R.Intn(3); j > 0; j-- {
+				calls = append(calls, msg(ch, 0, &tbase))
+			}
+		case r < 14:
+			if len(schemaList) > 0 {
+				sid := schemaList[g.R.Intn(len(schemaList))]
+				s := schemas[sid].c
+				s.Op = "addschema"
+				calls = append(calls, s)
+				schemas[sid].added = true
+			}
+		case r < 17:
+			if len(channelList) > 0 {
+				ch := channelList[g.R.Intn(len(channelList))]
+				addChannel(ch)
+			}
+		case r < 19:
+			calls = append(calls, wl.Call{Op: "attachment", Log: g.Time(), Create: g.Time(), Name: g.Str(), Media: g.Str(), Data: g.Payload(c.ChunkSize)})
+		default:
+			calls = append(calls, wl.Call{Op: "metadata", Name: g.Str(), MD: g.Map()})
+		}
+	}
+	if !unregistered {
+		// a remuxing tool registers what it has seen before it closes the file (in a seeded order)
+		for _, i := range g.R.Perm(len(schemaList)) {
+			if d := schemas[schemaList[i]]; !d.added && (d.written || g.R.Intn(2) == 0) {
+				s := d.c
+				s.Op = "addschema"
+				calls = append(calls, s)
+			}
+		}
+		for _, i := range g.R.Perm(len(channelList)) {
+			if d := channels[channelList[i]]; !d.added {
+				addChannel(channelList[i])
+			}
+		}
+	}
+	calls = append(calls, wl.Call{Op: "close"})
+	return wl.Workload{ID: id, Cfg: c, Calls: calls}
+}
